@@ -141,3 +141,37 @@ func clipB(b []byte, n int) []byte {
 	}
 	return b
 }
+
+
+// nestedReadAndCompare: ReadNested (a second reader of the same file alive inside the first one's callback); the
+// outer reader's records are compared with the expected values (only for files all of whose datums fit the target).
+func nestedReadAndCompare(c *fw.Ctx, f fileCase, data []byte, t reflect.Type, locus string) {
+	var want []reflect.Value
+	for _, d := range f.datums {
+		v := reflect.New(t).Elem()
+		if err := gv.Expect(f.schema, d, v); err != nil {
+			return
+		}
+		want = append(want, v)
+	}
+	c.Eval(1)
+	desc := fmt.Sprintf("%s into %s, with a second complete ReadFile of the same file run from inside the callback of record 0", f, clip(t.String(), 200))
+	det := map[string]interface{}{"schema": f.schema.Print(nil), "target": t.String(), "blocks": fmt.Sprint(f.comp), "codec": f.codec}
+	c.Begin(locus, desc)
+	res, innerN, innerErr := filedrv.ReadNested(data, data, f.mode, t, 0)
+	if res.Panic != nil {
+		c.Violation("panic:"+fw.PanicClass(res.Panic)+"@"+res.Site+"|"+locus, fmt.Sprintf("ReadFile panicked: %v — %s", res.Panic, desc), det)
+		return
+	}
+	c.Nontrivial(desc)
+	if res.Err != nil || innerErr != nil || len(res.Records) != len(want) || innerN != len(want) {
+		c.Violation("read-error|"+locus, fmt.Sprintf("outer: %d records err=%v; inner: %d records err=%v; the file holds %d — %s", len(res.Records), res.Err, innerN, innerErr, len(want), desc), det)
+		return
+	}
+	for i := range want {
+		if path, dl, vc := gv.DiffLocus(want[i], res.Records[i]); path != "" {
+			c.Violation("wrong-value|"+dl+"|"+vc+"|nested-reader", fmt.Sprintf("record %d of the outer reader decoded as %s, the datum is %s (difference at %s) — %s", i, clip(gv.Show(res.Records[i]), 200), clip(f.datums[i].String(), 200), path, desc), det)
+			return
+		}
+	}
+}
